@@ -28,6 +28,8 @@ def gen_project(rng, stream="structured", n_tasks=None, facilities=None, fs_only
     nt = n_tasks if n_tasks is not None else rng.choice([1, 2, 2, 3, 3, 4, 4, 5, 6, 7, 8])
     if stream == "edge" and rng.random() < 0.3:
         nt = 1
+    if n_tasks is None and stream == "structured" and rng.random() < 0.03:
+        nt = rng.choice([10, 12, 16, 20])       # now and then a project beyond the usual size
     use_fac = facilities if facilities is not None else (rng.random() < 0.45)
     n_names = max(1, nt - rng.choice([0, 0, 0, 1, 2]))       # duplicate names sometimes
     # --- tasks in a random topological "level" order, then shuffled positions
@@ -206,6 +208,11 @@ def gen_project(rng, stream="structured", n_tasks=None, facilities=None, fs_only
             "adopt_ids": rng.random() < 0.12, "int_rules": rng.random() < 0.12,    # priority rules given by their numbers        # workers / facilities created without team_id / workplace_id (the container adopts them)
             "rank": rng.sample(range(8), 8)[:nt] if nt <= 8 else None,
             "crank": rng.sample(range(8), 8)[:nc] if nc <= 8 else None}
+    if stream == "structured" and rng.random() < 0.02:
+        # a long run: every work amount times 8 (still on the dyadic grid), more steps allowed
+        case["long"] = True
+        for t in tasks:
+            t["work"] = qs(Fraction(t["work"]) * 8)
     # ID scheme (harness/sim.py make_ids): plain ints per class, or tasks / components built without an ID
     r = rng.random()
     if not case["same_ids"] and r < 0.14:
@@ -300,7 +307,7 @@ def gen_sim_op(rng, case, absences=True, vary_init=False):
     # state initialisation runs without its log-dependent parts
     return {"op": "simulate", "rule": rng.randrange(0, 9), "abs": ab, "auto_abs": rng.random() < 0.4,
             "init_state": True, "init_log": (rng.random() >= 0.08) if vary_init else True,
-            "max_time": rng.choice([40, 40, 40, 60, 6, 12]),
+            "max_time": rng.choice([150, 300]) if case.get("long") else rng.choice([40, 40, 40, 60, 6, 12]),
             # simulate(error_tol=...) is documented but not used by simulate; a float max_time m - 0.5 stops where m does
             **({"error_tol": rng.choice([0.25, 1e-3, 0.5])} if vary_init and rng.random() < 0.06 else {}),
             **({"max_time_half": True} if vary_init and rng.random() < 0.06 else {})}
